@@ -1105,7 +1105,7 @@ void h_prod_row(void)
               {'NMAX': 2, 'ZMAX': 3, 'AMAX': 5, 'VMASK': 1, 'NA': 4}, {'NMAX': 2, 'ZMAX': 3, 'AMAX': 5, 'VMASK': 1, 'NA': 5}],
     thorough_variants=[{'NMAX': 3, 'ZMAX': 3, 'AMAX': 5, 'VMASK': 1}, {'NMAX': 2, 'ZMAX': 3, 'AMAX': 5, 'VMASK': 3}],
     bound_text='B up to 2x2 with nnz <= 3 (thorough 3x3), rows strictly ascending, values in {0,1} (thorough 0..3); row of A with 0..5 entries, any order, repeated columns allowed',
-    assumptions=A_RMERGE + ['A-vals: quick variant restricts values to {0,1} (multilinearity: no branch reads a value)'], replay='kernels', timeout=300,
+    assumptions=A_RMERGE + ['A-vals: quick variant restricts values to {0,1} (multilinearity: no branch reads a value)'], replay='kernels', timeout=600,
     witness=wit('B') + ['w_na', 'w_acol', 'w_aval'],
 )
 prod_row_u.cover_exempt = r'^(merge_cols|prod_row_width)\.'
@@ -1263,7 +1263,7 @@ void h_spgemm_rmerge(void)
                             'A-vals: quick variant restricts stored values to {0,1}: the entries of C are multilinear in the stored values for each fixed pattern (no branch reads a value)',
                             'A-omp: OpenMP pragmas dropped; the text is verified sequentially for an arbitrary thread id tid in [0, nt): every row is processed with the scratch of that thread',
                             'A-new / A-own: as in the other bounded kernel units; callee bodies crs::set_size/scan_row_sizes/set_nonzeros are inlined from /repo'],
-    replay='kernels', timeout=300,
+    replay='kernels', timeout=600,
     witness=wit('A', 'B') + ['w_nt', 'w_tid'],
     not_decided=['B with repeated columns in a row (sorted but not strictly): the result then has duplicate columns; outside the stated precondition',
                  'B with unsorted rows: not under contract.  Native experiment: A = [1 1], B rows {2:1,1:1},{1:1,2:1}: spgemm_rmerge gives the row {1:1, 2:2, 1:1} (dense-correct, duplicate column) where spgemm_saad gives {2:2, 1:2}; product() forwards unsorted operands to spgemm_rmerge when more than 16 threads are available (stated as a precondition of unit builtin_product_dispatch)'],
